@@ -19,7 +19,7 @@ through the real ClientSession over the real StreamableClientTransport.
 The opening of the standalone stream (connectStandaloneSSE; model `ClientWrite.openStandalone`, monitor `omonitor`):
 
   reset
-  oscn mr=<MaxRetries field> fails=<n> ans=st<code>[e]      obs ok      (e: under Content-Type text/event-stream)
+  oscn mr=<MaxRetries field> fails=<n> ans=st<code>[e] [strict=1]      obs ok      (e: under Content-Type text/event-stream)
   open                                                      obs gets=<GETs made>
   probe                                                     obs ok | err
   oclose                                                    obs <returned|blocked> leak=<none|leak>
@@ -150,7 +150,8 @@ def engine : Engine DState where
         let mr ← (kv rest "mr").bind String.toInt?
         let fails ← (kv rest "fails").bind String.toNat?
         let ans ← (kv rest "ans").bind parseOAns
-        some { mr := Generated.ClientStream.maxRetriesOf mr, fails := fails, ans := ans }
+        let strict ← match kv rest "strict" with | none => some false | some "1" => some true | some _ => none
+        some { mr := Generated.ClientStream.maxRetriesOf mr, fails := fails, ans := ans, strict := strict }
       match r with
       | some s => ({ oscn := some s }, { model := "ok" })
       | none => ({}, { model := "bad-scn" })
